@@ -188,6 +188,18 @@ structure ImgParamsOk (X : ImgParams) (g : TGeom) : Prop where
   par : X.rootPar < 4294967296
   lim32 : g.f.lim ≤ 4294967296
 
+/-- what `reopen_image` needs of a call -/
+def OpOk (X : ImgParams) (g : TGeom) : TOp → Prop
+  | .mkdir _ n _ _ => NameOk X g n
+  | .create _ n _ => NameOk X g n
+  | .writeAt _ _ off data _ => off + data.length < 4294967296
+  | .truncate _ _ _ => True
+  | .rename _ _ n _ => NameOk X g n
+  | .remove _ _ _ => True
+
+instance (X : ImgParams) (g : TGeom) (op : TOp) : Decidable (OpOk X g op) := by
+  cases op <;> unfold OpOk <;> infer_instance
+
 mutual
 def TNode.depth : TNode → Nat
   | .file _ _ _ => 1
@@ -206,5 +218,43 @@ def kidsFileOwners : List TNode → List (List Nat)
   | [] => []
   | t :: ks => t.fileOwners ++ kidsFileOwners ks
 end
+
+/-! ### the raw check of C08 over the parsed entries -/
+
+/-- the chain of a parsed entry: made of in-range clusters, ending in an end-of-chain mark, long
+    enough for the recorded size -/
+def entryChainOkB (g : TGeom) (fuel : Nat) (m : CMap) (e : DirEntry) : Bool :=
+  match walk g.f.kind g.f.max m fuel e.cluster with
+  | .ok c => chainOkB g.f.kind g.f.lim m c && decide (e.size ≤ c.length * g.f.io.bpc)
+  | _ => false
+
+/-- every entry found by parsing, at every level, has a sound chain -/
+def checkLvl (g : TGeom) (fuel : Nat) (m : CMap) (d : Dev) : Nat → List DirEntry → Bool
+  | 0, _ => true
+  | depth + 1, es => (es.filter isRealEntry).all fun e =>
+      entryChainOkB g fuel m e &&
+        (if e.isDir then
+          match walk g.f.kind g.f.max m fuel e.cluster with
+          | .ok c => checkLvl g fuel m d depth (parseDir (chainBytes d g.f.io c))
+          | _ => false
+        else true)
+
+def reopenCheck (g : TGeom) (fuel depth : Nat) (m : CMap) (d : Dev) (rootFirst : Nat) : Bool :=
+  checkLvl g fuel m d depth (parseDir (rootBytes g fuel m d rootFirst))
+
+/-! ### lack of space (Proofs/FatTreeSpace.lean) -/
+
+/-- clusters the directory (`chain`, children `ks`) must grow by to hold one more entry named `n` -/
+def growFor (g : TGeom) (base : Nat) (chain : List Nat) (ks : List TNode) (n : Spec.Name) : Nat :=
+  if chain = [] then 0
+  else clusterCount g.f.io.bpc (32 * (dirSlots g base ks + g.slots n)) - chain.length
+
+/-- the directory reached by `path` from the directory `s` (`readDirWithMkdir(dir, false)`) -/
+def dirAtT (eqn : Spec.Name → Spec.Name → Bool) : List Spec.Name → Nat → DirSt → Option (Nat × DirSt)
+  | [], base, s => some (base, s)
+  | n :: rest, _, s =>
+    match kfind eqn s.kids n with
+    | some (.dir _ c ks) => dirAtT eqn rest 2 ⟨s.m, s.d, c, ks⟩
+    | _ => none
 
 end Diskfs.Fat
